@@ -309,3 +309,95 @@ def check_block_length_state(chk, lib):
                           % (show(g) if isinstance(g, Lin) else g, show(p.ret) if isinstance(p.ret, Lin) else p.ret))
         else:
             chk.ok("C06.row", "set_group_block_length", {})
+
+
+# ---- structural rows of the visitor protocol (documented in doc/ and the class comments: a callback returns true to
+# stop the traversal; an entity's own bytes are validated before its children are visited; the result is
+# {valid, n - remaining}).  Texts are in gguard's normal form (const locals inlined, comparisons oriented).
+def _V(x):
+    return "validate_and_subtract(%s)" % x
+
+
+SHAPES = {
+    "on_message": {
+        "returns": [],
+        "calls": [("validate_and_subtract", _V("size_bytes(get_header(m))"), []),
+                  ("validate_and_subtract", _V("*get_header(m).blockLength()"), [_V("size_bytes(get_header(m))")]),
+                  ("visit_children", "visit_children(m, c, *this)", [_V("*get_header(m).blockLength()"), _V("size_bytes(get_header(m))")])]},
+    "on_group": {
+        "returns": [("!is_valid()", [_V("size_bytes(get_header(g))")]), ("1", ["!" + _V("size_bytes(get_header(g))")])],
+        "calls": [("validate_and_subtract", _V("size_bytes(get_header(g))"), []),
+                  ("set_group_block_length", "set_group_block_length(*get_header(g).blockLength())", [_V("size_bytes(get_header(g))")]),
+                  ("visit_children", "visit_children(g, c, *this)", [_V("size_bytes(get_header(g))")]),
+                  ("set_group_block_length", "set_group_block_length(set_group_block_length(*get_header(g).blockLength()))", [_V("size_bytes(get_header(g))")])]},
+    "on_entry": {
+        "returns": [("!visit_children(e, c, *this).is_valid()", [_V("group_block_length")]), ("1", ["!" + _V("group_block_length")])],
+        "calls": [("validate_and_subtract", _V("group_block_length"), []),
+                  ("visit_children", "visit_children(e, c, *this)", [_V("group_block_length")])]},
+    "on_data": {
+        "returns": [("!" + _V("size_bytes(d)"), [])],
+        "calls": [("validate_and_subtract", _V("size_bytes(d)"), [])]},
+    "on_field": {"returns": [("0", [])], "calls": []},
+    "size_bytes_checked": {
+        "returns": [("{0, 0}", ["!visitor.is_valid()", "addressof(view)", "get_header_size(view) <= size"]),
+                    ("{0, 0}", ["(!addressof(view) || size < get_header_size(view))"]),
+                    ("{1, (size - visitor.get_size())}", ["addressof(view)", "get_header_size(view) <= size", "visitor.is_valid()"])],
+        "calls": [("visit", "visit(view, c, visitor)", ["addressof(view)", "get_header_size(view) <= size"])]},
+}
+SHAPE_CALLS = ("visit_children", "validate_and_subtract", "set_group_block_length", "visit")
+
+
+def shape_of(fn):
+    import gen
+    import gguard
+    par = gen.parents(fn)
+    calls = []
+    for n in walk(fn["body"]):
+        c = (n.get("callee") or {}).get("name")
+        if c in SHAPE_CALLS:
+            calls.append((c, gguard.opt_norm(gen.expr_text(n, 0, fn))[:160], tuple(gguard.guard_of(fn, n, par))))
+    return gguard.returns_of(fn), calls
+
+
+def check_shapes(chk, lib):
+    import gguard
+    cls = "sbepp::detail::size_bytes_checked_visitor"
+    n = 0
+    for name, exp in SHAPES.items():
+        fns = lib.fns(cls, name) if name != "size_bytes_checked" else [f for f in lib.by_name.get(("", "size_bytes_checked"), [])
+                                                                        if (f.get("base") or "") == "sbepp::size_bytes_checked"]
+        if not fns:
+            chk.broke("C06.shape: %s not found" % name)
+            continue
+        want_r = sorted((e, tuple(g)) for e, g in exp["returns"])
+        want_c = [(c, t, tuple(g)) for c, t, g in exp["calls"]]
+        known = set()
+        for e, g in want_r:
+            known |= gguard.idents(e) | gguard.idents(" ".join(g))
+        for c, t, g in want_c:
+            known |= gguard.idents(t) | gguard.idents(" ".join(g))
+        seen = set()
+        for f in fns:
+            got_r, got_c = shape_of(f)
+            sig = (tuple(got_r), tuple(got_c))
+            if sig in seen:
+                continue
+            seen.add(sig)
+            n += 1
+            if got_r == want_r and got_c == want_c:
+                chk.ok("C06.shape", name, {"exits": len(got_r), "calls": [c for c, _, _ in got_c]})
+                continue
+            used = set()
+            for e, g in got_r:
+                used |= gguard.idents(e) | gguard.idents(" ".join(g))
+            for c, t, g in got_c:
+                used |= gguard.idents(t) | gguard.idents(" ".join(g))
+            unknown = used - known - set(p["name"] for p in f.get("params") or []) - {"this", "operator", "bool"}
+            text = ("%s: exits %s / calls %s; the visitor protocol is exits %s / calls %s"
+                    % (name, [(e, list(g)) for e, g in got_r], [(t, list(g)) for _, t, g in got_c],
+                       [(e, list(g)) for e, g in want_r], [(t, list(g)) for _, t, g in want_c]))
+            if unknown:
+                chk.broke("C06.shape: %s uses identifiers the row does not know %s: %s" % (name, sorted(unknown)[:6], text[:500]))
+            else:
+                chk.violation("C06.shape", name, where(f), text[:900])
+    chk.floor("C06.shape rows", n, 6)
